@@ -69,6 +69,8 @@ JudgeReads(post, obs) ==
 \* when stabilise is called but no longer when it returns (a bind switched away from them): the
 \* engine may reach them before or after they stop being needed, depending on its schedule among
 \* equal-or-incomparable heights.  Those (opt) may run or not; everything else is exact.
+\* (A node of a superseded bind generation is never optional: its bind's lhs_change is lower than
+\* it and has already replaced it in any height-ordered schedule - that is C03.)
 \* lim: ids above it were allocated in a round whose allocation order differs from the spec's
 \* (see Aligned) and are not compared.
 JudgeInv(pre, obs, coneB, lim) ==
@@ -85,7 +87,7 @@ JudgeInv(pre, obs, coneB, lim) ==
   IN {Viol("C02", <<"node", n, "ran more than once in one stabilise">>) :
         n \in {m \in gotNodes : Cardinality({i \in 1..Len(got) : got[i].n = m}) > 1}}
      \cup {Viol("C03", <<"node", n, "created by a superseded run of its bind was invoked">>) :
-        n \in {m \in gotNodes : stale(m) /\ m \notin opt}}
+        n \in {m \in gotNodes : stale(m)}}
      \cup {Viol("C05", <<"node", n, "invoked outside the cone of every live observer">>) :
         n \in {m \in gotNodes : known(m) /\ ~stale(m) /\ m \notin cone}}
      \cup {Viol("C06", <<"node", n, "re-invoked although no input produced an unsuppressed result">>) :
